@@ -1,6 +1,15 @@
 package mon
 
 import (
+	"encoding/json"
+	"fmt"
+	"os"
+	"os/exec"
+	"path/filepath"
+	"regexp"
+	"strconv"
+	"strings"
+
 	"verif/harness/core"
 )
 
@@ -10,13 +19,112 @@ func (C19Mon) After(w *core.World, st *core.Step) {}
 
 func runC19(c *core.Ctx) {
 	RunIn(c, "", 16, 4096)
+	if os.Getenv("VERIF_NOFUZZ") == "" {
+		runC19Fuzz(c)
+	}
+}
+
+var (
+	fuzzExecsRe = regexp.MustCompile(`execs: (\d+) `)
+	fuzzTotalRe = regexp.MustCompile(`new interesting: \d+ \(total: (\d+)\)`)
+	fuzzFileRe  = regexp.MustCompile(`Failing input written to (\S+)`)
+)
+
+// runC19Fuzz: the coverage-guided part of the C19 workload. Go's native fuzzing engine (part of the toolchain, works
+// offline) mutates the inputs of every decoder under coverage feedback, with an ITERATION budget; the oracle is the
+// target's own (harness/inproc/fuzz_test.go): panic, allocation bound, time bound, wrong content. The engine's
+// cache of interesting inputs lives in the scratch directory, so every run starts from the seed corpus.
+func runC19Fuzz(c *core.Ctx) {
+	dir := filepath.Join(c.Scratch, "inproc")
+	if _, err := os.Stat(filepath.Join(dir, "fuzz_test.go")); err != nil {
+		c.Broken("fuzz targets missing in " + dir)
+		return
+	}
+	fast, slow := c.Pick(60000, 600000), c.Pick(15000, 120000)
+	targets := []struct {
+		name string
+		n    int
+	}{{"FuzzObjectFile", slow * 2}, {"FuzzTreeBody", fast}, {"FuzzCommitBody", fast}, {"FuzzIndexFile", slow}, {"FuzzHeadFile", slow}, {"FuzzBranchFile", slow},
+		{"FuzzConfigFile", slow}, {"FuzzReflogFile", slow}, {"FuzzIgnoreFile", slow}, {"FuzzReadHash", fast}}
+	cache := filepath.Join(c.Scratch, "fuzzcache")
+	for _, t := range targets {
+		cmd := exec.Command("go", "test", "-tags", "verif", "-run", "^$", "-fuzz", "^"+t.name+"$", "-fuzztime", fmt.Sprintf("%dx", t.n), "-test.fuzzcachedir", cache, ".")
+		cmd.Dir = dir
+		cmd.Env = append(os.Environ(), "TMPDIR="+c.Scratch)
+		out, err := cmd.CombinedOutput()
+		text := string(out)
+		var execs, total int64
+		if m := fuzzExecsRe.FindAllStringSubmatch(text, -1); len(m) > 0 {
+			execs, _ = strconv.ParseInt(m[len(m)-1][1], 10, 64)
+		}
+		if m := fuzzTotalRe.FindAllStringSubmatch(text, -1); len(m) > 0 {
+			total, _ = strconv.ParseInt(m[len(m)-1][1], 10, 64)
+		}
+		c.Eval(execs)
+		c.OracleN("C19.fuzz", execs)
+		c.CountN("C19.fuzz-execs|"+t.name, execs)
+		c.CountN("C19.fuzz-corpus|"+t.name, total)
+		c.Class(fmt.Sprintf("fuzz|%s|corpus-%d", t.name, total))
+		if err == nil {
+			if execs < int64(t.n) {
+				c.Broken(fmt.Sprintf("fuzzing %s ended after %d of %d executions without a finding: %s", t.name, execs, t.n, clipS(lastLines(text, 3), 300)))
+			}
+			continue
+		}
+		if !strings.Contains(text, "--- FAIL") && !strings.Contains(text, "Failing input written") {
+			c.Broken(fmt.Sprintf("go test -fuzz %s did not run: %s", t.name, clipS(lastLines(text, 6), 600)))
+			continue
+		}
+		var input []byte
+		where := ""
+		if m := fuzzFileRe.FindStringSubmatch(text); m != nil {
+			where = m[1]
+			input, _ = os.ReadFile(filepath.Join(dir, where))
+		}
+		line := ""
+		for _, ln := range strings.Split(text, "\n") {
+			l := strings.TrimSpace(ln)
+			if i := strings.Index(l, "panic: "); i > 0 {
+				l = l[i:]
+			}
+			if strings.HasPrefix(l, "panic:") || strings.HasPrefix(l, "fatal error:") || strings.Contains(l, "allocated") || strings.Contains(l, " took ") || strings.Contains(l, "returned") || strings.Contains(l, "hung or terminated") {
+				line = l
+				break
+			}
+		}
+		sym := "fuzz-finding"
+		switch {
+		case strings.HasPrefix(line, "panic:") || strings.HasPrefix(line, "fatal error:"):
+			sym = panicClass(line)
+		case strings.Contains(line, "allocated"):
+			sym = "allocation-over-bound"
+		case strings.Contains(line, " took ") || strings.Contains(line, "hung"):
+			sym = "hang-or-slow"
+		case strings.Contains(line, "returned"):
+			sym = "damaged-object-returned"
+		}
+		f := core.Failure{Prop: "C19", Oracle: "C19.fuzz", Symptom: sym, Trigger: t.name, Detail: fmt.Sprintf("%s: %s; failing input (go fuzz corpus format): %s", t.name, clipS(line, 300), clipS(string(input), 600))}
+		if c.Fail(f) {
+			b, _ := json.Marshal(map[string]string{"target": t.name, "corpus_file": string(input), "go_test_output": clipS(lastLines(text, 40), 6000)})
+			c.WriteWitness(&core.Witness{Kind: "custom", Failures: []core.Failure{f}, Custom: b})
+		}
+	}
+}
+
+func lastLines(s string, n int) string {
+	ls := strings.Split(strings.TrimRight(s, "\n"), "\n")
+	if len(ls) > n {
+		ls = ls[len(ls)-n:]
+	}
+	return strings.Join(ls, " | ")
 }
 
 func init() {
 	register(&Prop{ID: "C19", Level: "fault_enumeration", NeedIn: true,
-		Rule:   "a corpus of valid files produced by Goit itself (objects of all three kinds, index, HEAD, branch, config, global config, reflog, ignore file); for each file: every truncation length, every single-byte deletion and single-byte substitutions (bit flip + seeded values; thorough: all 255 values for files <= 512 B); for objects the same mutations also on the INFLATED content (re-deflated for GetObject, fed directly to NewTree/NewCommit) and every pair of valid object files swapped; plus seeded random byte strings with dictionary splices; each call to GetObject/NewTree/NewCommit/NewIndex/NewHead/NewRefs/NewConfig/NewReflog(+GetRecord,Show)/NewIgnore/ReadHash runs under recover + an affine allocation bound (64 MiB + 2000 x input size, runtime.MemStats) + a 2 s bound; wrong-content oracle: GetObject without error => SHA-1(header+Data) == requested id; also insertions of tokens (overlong digit runs, an empty section header, separators) and duplicated slices; CLI: read commands, and modifying commands on a throw-away copy, on mutated repositories must not crash; crafted well-formed states (a correctly named object of the wrong kind / a missing or zero id behind a branch, a tree line, a parent line, a tree entry or a staging-area entry; two-parent histories; trees with odd modes, names, order, duplicates, a 300-level chain; commits lacking headers; branch and HEAD files with odd but printable contents; staging-area files with odd paths; absent index / logs / branch files) x every command; a process death is attributed to the input in the progress file; distinct = (decoder, mutation kind, outcome class)",
-		Mons:   func() []core.Monitor { return []core.Monitor{C19Mon{}} },
-		Run:    runC19,
-		Floors: []core.Floor{{Key: "C19.panic", Min: 20000}, {Key: "C19.wrong-content", Min: 10}, {Key: "C19.cli", Min: 300}, {Key: "C19.crafted", Min: 2000}},
+		Rule:           "a corpus of valid files produced by Goit itself (objects of all three kinds, index, HEAD, branch, config, global config, reflog, ignore file); for each file: every truncation length, every single-byte deletion and single-byte substitutions (bit flip + seeded values; thorough: all 255 values for files <= 512 B); for objects the same mutations also on the INFLATED content (re-deflated for GetObject, fed directly to NewTree/NewCommit) and every pair of valid object files swapped; plus seeded random byte strings with dictionary splices; each call to GetObject/NewTree/NewCommit/NewIndex/NewHead/NewRefs/NewConfig/NewReflog(+GetRecord,Show)/NewIgnore/ReadHash runs under recover + an affine allocation bound (64 MiB + 2000 x input size, runtime.MemStats) + a 2 s bound; wrong-content oracle: GetObject without error => SHA-1(header+Data) == requested id; also insertions of tokens (overlong digit runs, an empty section header, separators) and duplicated slices; CLI: read commands, and modifying commands on a throw-away copy, on mutated repositories must not crash; crafted well-formed states (a correctly named object of the wrong kind / a missing or zero id behind a branch, a tree line, a parent line, a tree entry or a staging-area entry; two-parent histories; trees with odd modes, names, order, duplicates, a 300-level chain; commits lacking headers; branch and HEAD files with odd but printable contents; staging-area files with odd paths; absent index / logs / branch files) x every command; a process death is attributed to the input in the progress file; distinct = (decoder, mutation kind, outcome class)",
+		Mons:           func() []core.Monitor { return []core.Monitor{C19Mon{}} },
+		Run:            runC19,
+		Floors:         []core.Floor{{Key: "C19.panic", Min: 20000}, {Key: "C19.wrong-content", Min: 10}, {Key: "C19.cli", Min: 300}, {Key: "C19.crafted", Min: 2000}, {Key: "C19.fuzz", Min: 200000}},
+		ThoroughFloors: []core.Floor{{Key: "C19.fuzz", Min: 1000000}},
 	})
 }
